@@ -377,7 +377,7 @@ func c15Cleanup(w *World, r *Report) {
 			for _, e := range condEdges(ifi.Cond) {
 				if len(e.To().Instrs) > 0 {
 					if reach, _ := cg.PathExists(IPos{e.To(), -1}, posOf(rm), Avoid{}); reach {
-						other := Edge{e.From, 1 - e.Succ}
+						other := Edge{From: e.From, Succ: 1 - e.Succ}
 						if r2, _ := cg.PathExists(IPos{other.To(), -1}, posOf(rm), Avoid{}); !r2 {
 							cond, fireOnTrue = ifi.Cond, e.truth
 						}
